@@ -935,6 +935,11 @@ func c17E2E(a lib.Args, res *lib.Result) error {
 			return err
 		}
 	}
+	if want("e2e-own") {
+		if err := c17E2EOwn(a, res, v); err != nil {
+			return err
+		}
+	}
 	if want("e2e-par") {
 		if err := c17E2EPar(a, res, v); err != nil {
 			return err
